@@ -772,7 +772,13 @@ pub fn gen_and_run(env: &Env, ctx: &Ctx, stream: u64, idx: u64, with_faults: boo
                     let event = if ev.is_empty() { rng.below(20) } else { ev[rng.usize(ev.len())] as u64 };
                     match rng.below(3) {
                         0 => faults.push(Fault { event, kind: F_EINTR, arg: 0 }),
-                        1 => faults.push(Fault { event, kind: F_SHORT, arg: 1 + rng.below(200) as i32 }),
+                        1 => {
+                            // cut where a parser would not notice: in front of a
+                            // line that starts at column 0 (top-level item)
+                            let cuts: Vec<usize> = cur.windows(2).enumerate().filter(|(_, w)| w[0] == b'\n' && !w[1].is_ascii_whitespace() && w[1] != b'}').map(|(k, _)| k + 1).collect();
+                            let arg = if !cuts.is_empty() && rng.chance(2, 3) { cuts[rng.usize(cuts.len())] as i32 } else { 1 + rng.below(200) as i32 };
+                            faults.push(Fault { event, kind: F_SHORT, arg })
+                        }
                         _ => faults.push(Fault { event, kind: F_ERRNO, arg: *rng.pick(&[libc::EIO, libc::EACCES, libc::EMFILE, libc::ENOSPC]) }),
                     }
                 }
